@@ -4,6 +4,7 @@ import (
 	"encoding/json"
 	"fmt"
 	"math"
+	"sync"
 
 	"verifharness/fw"
 	"verifharness/grid"
@@ -339,6 +340,8 @@ func judgeIndexKeys(c *fw.Ctx, kc *IndexKeyCase) {
 
 const c17FixedBatches = 10
 
+var c17DecodeFirst sync.Once
+
 func indexKeyBatch(c *fw.Ctx, wide bool) {
 	n := 3000
 	for i := 0; i < n; i++ {
@@ -359,6 +362,25 @@ func init() {
 	fw.Register(&fw.Prop{
 		ID: "C17", Cases: tierN(c17FixedBatches+200, c17FixedBatches+5000),
 		Run: func(c *fw.Ctx) {
+			// history: the first morton call of this process is a decode of keys made by the reference, not by ToZ
+			// (a decoder must not depend on an encoder having run before it)
+			c17DecodeFirst.Do(func() {
+				rng := fw.NewRng(uint64(c.Seed)*977 + uint64(c.Idx))
+				for i := 0; i < 20000; i++ {
+					x, y := rng.Uint64()>>32, rng.Uint64()>>32
+					if i < 64 {
+						x, y = uint64(1)<<uint(i%32), uint64(1)<<uint((i/2)%32)
+					}
+					z := refInterleave(x, y)
+					c.Rec.Eval()
+					if gx, gy := morton.FromZ(morton.Z(z)); uint64(gx) != x || uint64(gy) != y {
+						cj, _ := json.Marshal(map[string]any{"decode_first": true, "x": x, "y": y})
+						c.Rec.Violation("decode-before-any-encode", "", fmt.Sprintf("first morton call of the process: FromZ(%#x) = (%#x,%#x), the key was interleaved from (%#x,%#x)", z, gx, gy, x, y), cj, nil)
+						break
+					}
+				}
+				c.Rec.Add("decodes_before_any_encode_in_a_fresh_process", 20000)
+			})
 			seen := map[uint64][2]uint64{}
 			switch c.Idx {
 			case 0: // all (x,y) with at most two bits set in total, over 64-bit positions 0..33 (exhaustive)
@@ -475,6 +497,18 @@ func init() {
 			}
 		},
 		Replay: func(c *fw.Ctx, raw json.RawMessage) {
+			var df struct {
+				DecodeFirst bool `json:"decode_first"`
+				X, Y        uint64
+			}
+			if json.Unmarshal(raw, &df) == nil && df.DecodeFirst {
+				c.Rec.Eval()
+				z := refInterleave(df.X, df.Y)
+				if gx, gy := morton.FromZ(morton.Z(z)); uint64(gx) != df.X || uint64(gy) != df.Y {
+					c.Rec.Violation("decode-before-any-encode", "", fmt.Sprintf("FromZ(%#x) = (%#x,%#x), the key was interleaved from (%#x,%#x) (no encode has run in this process)", z, gx, gy, df.X, df.Y), raw, nil)
+				}
+				return
+			}
 			var probe struct {
 				Insert [][2]uint64 `json:"insert"`
 			}
@@ -494,9 +528,9 @@ func init() {
 			}
 			checkPair(c, mc.X, mc.Y, nil)
 		},
-		Rule: "ToZ/FromZ/MustToZ against a bit-by-bit reference interleave: equality with the (injective) reference, decode round trip, parent key = key >> 2, ok flag and MustToZ panic for ordinates above 32 bits; exhaustive: all pairs with at most 2 bits set (positions 0..33), all 2^16 pairs of 8-bit values at shifts 0/12/24; plus boundary values, bit-linearity, quadtree parent chains at levels 20-32, random pairs (injectivity also checked by a hash set per batch); and the keys as the point index uses them: pixels inserted by address (InsertCoord) on built-in and synthetic sets with deepest levels 8-36, a segment inside one pixel looked up at several levels must return exactly the ancestor centres that the addresses predict (inserted pixels differ from the query pixel in one or two mostly high bits), and an address above 32 bits (levels 33-36) must be reported by panic/error or, if accepted, must not alias the address with the high bits dropped; evaluations = pairs; non-trivial = pair with both ordinates > 255, counted on a 1/256 hash sample of the pairs (conservative undercount) plus one entry per batch",
+		Rule: "ToZ/FromZ/MustToZ against a bit-by-bit reference interleave: equality with the (injective) reference, decode round trip, parent key = key >> 2, ok flag and MustToZ panic for ordinates above 32 bits; exhaustive: all pairs with at most 2 bits set (positions 0..33), all 2^16 pairs of 8-bit values at shifts 0/12/24; plus boundary values, bit-linearity, quadtree parent chains at levels 20-32, random pairs (injectivity also checked by a hash set per batch); every worker process starts with 20 000 decodes (FromZ) of reference-made keys before its first encode; and the keys as the point index uses them: pixels inserted by address (InsertCoord) on built-in and synthetic sets with deepest levels 8-36, a segment inside one pixel looked up at several levels must return exactly the ancestor centres that the addresses predict (inserted pixels differ from the query pixel in one or two mostly high bits), and an address above 32 bits (levels 33-36) must be reported by panic/error or, if accepted, must not alias the address with the high bits dropped; evaluations = pairs; non-trivial = pair with both ordinates > 255, counted on a 1/256 hash sample of the pairs (conservative undercount) plus one entry per batch",
 		Required: func(string) []string {
-			return []string{"exh:two_bit_patterns", "exh:8bit_pairs_shift_0", "exh:8bit_pairs_shift_12", "exh:8bit_pairs_shift_24", "boundary_pairs", "unencodable_pairs", "random_pairs", "quadtree_chains", "index:lookups_correct", "index:level_above_32_low_addresses", "index:unencodable_address_reported"}
+			return []string{"exh:two_bit_patterns", "exh:8bit_pairs_shift_0", "exh:8bit_pairs_shift_12", "exh:8bit_pairs_shift_24", "boundary_pairs", "unencodable_pairs", "random_pairs", "quadtree_chains", "index:lookups_correct", "index:level_above_32_low_addresses", "index:unencodable_address_reported", "decodes_before_any_encode_in_a_fresh_process"}
 		},
 		MinNonTriv:  8,
 		Exhaustive:  map[string]string{"exh:two_bit_patterns": "all (x,y) with at most two bits set in total, bit positions 0..33", "exh:8bit_pairs_shift_0": "all 2^16 pairs of 8-bit values", "exh:8bit_pairs_shift_12": "all 2^16 pairs of 8-bit values shifted left by 12", "exh:8bit_pairs_shift_24": "all 2^16 pairs of 8-bit values shifted left by 24"},
